@@ -61,6 +61,15 @@ pub struct Scn {
     /// the receiver's list of current instances overflows
     #[serde(default)]
     pub many_instances: u8,
+    /// without SCT: the FDT packets carry an EXT_TIME that holds no sender current time at all, only a Session Last
+    /// Changed word (an hour old) and / or an Expected Residual Time: the receiver's own clock stays uncorrected
+    #[serde(default)]
+    pub time_ext_without_sct: u8,
+    /// single instance, no SCT, clock jump between the arrivals: cleanup() runs at the jump and the FDT packets are
+    /// delivered AGAIN (carousel repetition) right before the object - an instance id judged expired once is judged
+    /// anew when it arrives again
+    #[serde(default)]
+    pub fdt_again_after_jump: bool,
 }
 
 /// The datagram as it is delivered: flute's own, or with EXT_TIME re-encoded as SCT-High only.
@@ -73,6 +82,16 @@ fn on_wire(scn: &Scn, p: &Emitted) -> Vec<u8> {
         }
         if scn.ext_time_extra & 2 != 0 {
             b.sct_slc = Some(b.sct.map(|s| s.0).unwrap_or(0).wrapping_sub(3));
+        }
+        wire::encode(&b)
+    } else if !scn.sct && scn.time_ext_without_sct != 0 && p.dec.toi == 0 && p.dec.sct.is_none() {
+        let mut b = wire::to_build(&p.dec);
+        let sec = wire::ntp_of_unix_micros(p.t_us).0;
+        if scn.time_ext_without_sct & 1 != 0 {
+            b.sct_slc = Some(sec.wrapping_sub(3600));
+        }
+        if scn.time_ext_without_sct & 2 != 0 {
+            b.sct_ert = Some(40);
         }
         wire::encode(&b)
     } else {
@@ -126,7 +145,14 @@ pub fn gen(rng: &mut Rng, _tier: Tier) -> Scn {
         completing_packet_unstamped: rng.chance(0.4),
         ext_time_extra: if rng.chance(0.3) { rng.range(1, 3) as u8 } else { 0 },
         many_instances: if rng.chance(0.12) { rng.range(9, 24) as u8 } else { 0 },
+        time_ext_without_sct: if rng.chance(0.3) { rng.range(1, 3) as u8 } else { 0 },
+        fdt_again_after_jump: rng.chance(0.5),
     }
+}
+
+/// The FDT is delivered a second time after the receiver's clock jumped (see `Scn::fdt_again_after_jump`).
+fn fdt_again(scn: &Scn, t_f: u64, t_o: u64, lost: bool) -> bool {
+    scn.fdt_again_after_jump && !scn.sct && scn.jump_s != 0 && t_f < t_o && !lost
 }
 
 /// One receiver run with the given clock offset; returns (complete exact, complete wrong, failed, writers) and the writer trace.
@@ -153,9 +179,20 @@ fn receive_with_offset(scn: &Scn, ctx: &Ctx, sess: &Session, offset_s: i64, t_f:
     let second_phase = t_f.max(t_o);
     // the FDT packet that completes the instance (spread variant): the last FDT packet delivered
     let completing = if scn.completing_packet_unstamped && scn.sct { lost.map(|l| l.1) } else { None };
+    let again = fdt_again(scn, t_f, t_o, lost.is_some());
+    let fdt_pkts: Vec<&Emitted> = dl.iter().filter(|x| !x.1).map(|x| x.2).collect();
+    let mut redelivered = false;
     for (t, _, p) in dl {
         let jump = if scn.jump_s != 0 && t >= second_phase && t_f != t_o { scn.jump_s } else { 0 };
         rr.offset_us = (offset_s + jump) * 1_000_000;
+        if again && !redelivered && t >= second_phase {
+            // the clock has jumped: housekeeping, then the carousel repetition of the instance, then the object
+            redelivered = true;
+            rr.cleanup(t);
+            for f in &fdt_pkts {
+                rr.push(&ep, &on_wire(scn, f), t);
+            }
+        }
         if Some(p.idx) == completing {
             let mut b = wire::to_build(&p.dec);
             b.sct = None;
@@ -471,8 +508,14 @@ pub fn run(scn: &Scn, ctx: &Ctx, scratch: &Path) {
         let est_at_attach: i128 = if scn.sct { r_attach - (r_f - t_e as i128) } else { r_attach };
         // without SCT the instance must also be unexpired when it is received
         let est_at_reception: i128 = if scn.sct { t_e as i128 } else { r_f };
-        let margin = (est_at_attach - expires_us as i128).abs().min((est_at_reception - expires_us as i128).abs());
-        let allowed = !scn.check || (est_at_attach <= expires_us as i128 && est_at_reception <= expires_us as i128);
+        let mut margin = (est_at_attach - expires_us as i128).abs().min((est_at_reception - expires_us as i128).abs());
+        let mut allowed = !scn.check || (est_at_attach <= expires_us as i128 && est_at_reception <= expires_us as i128);
+        if fdt_again(scn, t_f, t_o, lost.is_some()) {
+            // the instance arrives a second time right before the object, on the jumped clock: that reception counts
+            margin = (est_at_attach - expires_us as i128).abs();
+            allowed = !scn.check || est_at_attach <= expires_us as i128;
+            ctx.borrow_mut().count_fault("fdt-redelivered-after-clock-jump");
+        }
         let ((exact, wrong, failed), tr) = receive_with_offset(scn, ctx, &sess, *off, t_f, lost);
         traces.push((*off, tr));
         if wrong > 0 {
@@ -535,6 +578,9 @@ pub fn run(scn: &Scn, ctx: &Ctx, scratch: &Path) {
     if scn.sct && scn.ext_time_extra != 0 {
         c.count_fault("ext-time-with-ert-slc");
     }
+    if !scn.sct && scn.time_ext_without_sct != 0 {
+        c.count_fault("ext-time-without-sct");
+    }
     if lost.is_some() {
         c.count_fault("drop-fdt-packet-completed-by-repetition");
     }
@@ -587,6 +633,8 @@ impl Prop for C19 {
         push(&|n| n.jump_s = 0);
         push(&|n| n.sct_high_only = false);
         push(&|n| n.ext_time_extra = 0);
+        push(&|n| n.time_ext_without_sct = 0);
+        push(&|n| n.fdt_again_after_jump = false);
         push(&|n| n.many_instances = if n.many_instances > 11 { 11 } else { n.many_instances });
         push(&|n| n.id_wrap = false);
         push(&|n| n.a_before_newer = false);
